@@ -930,7 +930,7 @@ pub fn check_command(cmd: &SExpr, sc: &mut Scopes, profile: &Profile) -> Result<
         "declare-fun" => {
             let [_, n, a, s] = l else { return Err("declare-fun arity".into()) };
             if a.list().map(|x| !x.is_empty()).unwrap_or(true) {
-                return Err("only nullary declare-fun supported".into());
+                return Err("reference-limit: only nullary declare-fun is modelled by the reference front end".into());
             }
             let n = n.sym().ok_or("declare-fun name")?;
             let s = parse_sort(s)?;
@@ -941,7 +941,7 @@ pub fn check_command(cmd: &SExpr, sc: &mut Scopes, profile: &Profile) -> Result<
             let (n, s, body) = if name == "define-fun" {
                 let [_, n, a, s, b] = l else { return Err("define-fun arity".into()) };
                 if a.list().map(|x| !x.is_empty()).unwrap_or(true) {
-                    return Err("only nullary define-fun supported".into());
+                    return Err("reference-limit: only nullary define-fun is modelled by the reference front end".into());
                 }
                 (n, s, b)
             } else {
@@ -1024,8 +1024,18 @@ pub fn check_command(cmd: &SExpr, sc: &mut Scopes, profile: &Profile) -> Result<
         "get-unsat-assumptions" => Ok(CmdKind::GetUnsatAssumptions),
         "get-model" => Ok(CmdKind::GetModel),
         "exit" => Ok(CmdKind::Exit),
+        // standard commands the reference front end does not model: harness limit, not a defect
+        "reset" | "reset-assertions" | "echo" | "get-info" | "get-option" | "get-unsat-core" | "get-assignment"
+        | "get-assertions" | "get-proof" | "declare-sort" | "define-sort" | "define-fun-rec" | "define-funs-rec"
+        | "declare-datatype" | "declare-datatypes" | "check-sat-using" => {
+            Err(format!("reference-limit: command {} is not modelled by the reference front end", other_name(name)))
+        }
         other => Err(format!("unsupported command {}", other)),
     }
+}
+
+fn other_name(n: &str) -> &str {
+    n
 }
 
 pub fn zero_value(s: &Sort) -> SVal {
